@@ -446,7 +446,7 @@ def case_term(o):
     it = Intern()
     return "RC %s %d %s %s %s %d %s %s" % (
         coq_bool(REPAIRED), o["n_input"], file_term(it, o["before"]), file_term(it, o["after"]), coq_bool(o["same_ptr"]),
-        o["n_after"], file_term(it, o["again"]), coq_bool(o["again_same_ptr"]))
+        o["n_after"], "None" if o["again"] == o["after"] else "(Some %s)" % file_term(it, o["again"]), coq_bool(o["again_same_ptr"]))
 
 
 HEADER = ("From Coq Require Import List NArith Bool.\nImport ListNotations.\n"
@@ -466,12 +466,12 @@ def run(ctx):
     cases = corpus()
     g = golden_case()
     cases.append(dict(g, golden=False, sci=True))
-    n_random = ctx.budget(700, 12000)
+    n_random = ctx.budget(260, 12000)
     for i in range(n_random):
         sc = Schema(rng, rng.choice([0, 15, 30, 60]))
         p_any = rng.choice([30, 60, 90])
         c = {"files": {"opts.proto": sc.text(), "main.proto": gen_main(rng, sc, p_any)}, "main": "main.proto",
-             "sci": rng.chance(1, 2), "asis": rng.chance(3, 4)}
+             "sci": rng.chance(1, 3), "asis": rng.chance(3, 4)}
         if rng.chance(1, 12):
             c["inject"] = [[rng.range(0, 12), 700 + rng.range(0, 3), "aa" * rng.range(1, 3)] for _ in range(rng.range(1, 3))]
         if not c["asis"] and rng.chance(1, 6):
@@ -513,7 +513,7 @@ def run(ctx):
                           "(got %s, protoc %s)" % (d["at"] or "the file", d["got"], d["protoc"]),
                           {"file": "corpus/C22/retention.proto", "element": d["at"], "got": d["got"], "protoc": d["protoc"]})
             break
-    mism, err = coq_eval_mismatches("cases_C22", HEADER, terms, "ret_chk", shard_size=ctx.budget(60, 250))
+    mism, err = coq_eval_mismatches("cases_C22", HEADER, terms, "ret_chk", shard_size=ctx.budget(18, 100))
     if err:
         raise RuntimeError(err)
     for k in mism:
